@@ -88,6 +88,9 @@ namespace sim {
 		asio::high_resolution_timer m_forward_timer;
 
 		chrono::high_resolution_clock::time_point m_last_forward;
+
+		// true while next_packet_sent() is handing a packet to the next hop
+		bool m_forwarding = false;
 	};
 
 }
